@@ -371,6 +371,11 @@ func runHistory(k *vf.Case) {
 	release := make(chan struct{})
 	var producersLeft atomic.Int32
 	producersLeft.Store(int32(G))
+	hotShared := r.Bool()
+	sharedHot := [2][]attribute.KeyValue{
+		{attribute.String("zone", "hot"), attribute.Int("sid", 999), attribute.String("a", "1"), attribute.Int("sid", 1000)},
+		{attribute.String("zone", "hot"), attribute.Int("sid", 999), attribute.String("a", "1"), attribute.Int("sid", 1001)},
+	}
 	for g := 0; g < G; g++ {
 		seed := r.U64()
 		wg.Add(1)
@@ -392,6 +397,14 @@ func runHistory(k *vf.Case) {
 				}
 			}
 			hot := [2]metric.MeasurementOption{metric.WithAttributeSet(attribute.NewSet(attribute.Int("sid", 1000))), metric.WithAttributeSet(attribute.NewSet(attribute.Int("sid", 1001)))}
+			hotOpt := func(hs int) metric.MeasurementOption {
+				if hotShared {
+					// the documented concurrent-safe shorthand: every goroutine passes the same caller-owned slice
+					// (unsorted, with a default that a later element overrides)
+					return metric.WithAttributes(sharedHot[hs]...)
+				}
+				return hot[hs]
+			}
 			<-release
 			for i := 0; i < perG; i++ {
 				if gr.Chance(1, 4) {
@@ -400,7 +413,7 @@ func runHistory(k *vf.Case) {
 					if (!mono(inst) && gr.Bool()) || (negOnCounters && gr.Chance(1, 8)) {
 						v = -v
 					}
-					addTo(inst, v, hot[hs])
+					addTo(inst, v, hotOpt(hs))
 					hotTotals[inst][hs].Add(v)
 					continue
 				}
